@@ -232,3 +232,102 @@ func VerifResize() {
 	s.checkCommitted("after the plain reopen")
 	verifReach("end")
 }
+
+// VerifResizeSpecial (C14): two starting points the main harness does not have.
+//  scenario 0: the file was created unbounded and gets a limit (a shrink from "no limit")
+//  scenario 1: a bounded file whose overflow area is in use (overwrite pages live
+//              beyond the maximum size) gets a larger limit
+func VerifResizeSpecial() {
+	const capacity = 260 * 1024
+	scen := verifChoose(2)
+	cfg := &progCfg{concrete: true, capacity: capacity}
+	if scen == 1 {
+		cfg.maxPages, cfg.metaArea = 64, 2
+	}
+	s := verifNewProg(cfg)
+	s.setup(2)
+	if scen == 0 {
+		s.allocRaw(20)
+	} else {
+		s.allocRaw(int(s.availNow()))
+		tx0, e0 := s.f.BeginWith(TxOptions{EnableOverflowArea: true})
+		verifAssert(e0 == nil, "Begin succeeds")
+		w0 := s.m.clone()
+		nOver := 1 + verifChoose(3)
+		for k := 0; k < nOver; k++ {
+			rp := &w0.pages[k]
+			p, _ := tx0.Page(rp.id)
+			b0, b1 := s.content()
+			verifAssert(p.SetBytes(verifBuf(b0, b1, b1)) == nil, "overwriting a live page succeeds")
+			rp.b0, rp.b1, rp.last, rp.raw = b0, b1, b1, false
+		}
+		verifAssert(tx0.Commit() == nil, "Commit with the overflow area enabled succeeds on a full file")
+		s.m = w0.clone()
+		verifAssume(uint(s.f.allocator.meta.endMarker) > 64) // the overflow area is in use
+	}
+	s.checkCommitted("before resizing")
+	s.assertPartition("before resizing")
+	before := snapOf(s.f)
+	oldExtent := maxU(uint(before.dataEnd), uint(before.metaEnd))
+	availBefore := s.availNow()
+	verifAssert(s.f.Close() == nil, "File.Close succeeds")
+
+	newMax := []uint{96, 160}[verifChoose(2)]
+	verifLogU64("scenario", uint64(scen))
+	verifLogU64("new max pages", uint64(newMax))
+	disk2 := memFileFrom(s.disk.image(), capacity)
+	f2, err2 := openWith(disk2, Options{MaxSize: uint64(newMax) * verifPageSize, PageSize: verifPageSize, Flags: FlagUpdMaxSize, Prealloc: verifBool("prealloc")})
+	verifAssert(err2 == nil, "opening with a new maximum size succeeds")
+	f2.reportOpen()
+	s.disk, s.f = disk2, f2
+	oldMax := cfg.maxPages
+	cfg.maxPages, cfg.extent = newMax, oldExtent
+	cfg.overflow = false
+	s.checkCommitted("after resizing")
+	after := snapOf(f2)
+	verifAssert(after.root == before.root, "resizing keeps the root")
+	verifAssert(idsEqual(after.walFrom, before.walFrom) && idsEqual(after.walTo, before.walTo), "resizing keeps the overwrite mapping")
+	verifAssert(f2.allocator.maxPages == newMax, "the new limit is in effect")
+	verifAssert(f2.getMetaPage().maxSize.Get() == uint64(newMax)*verifPageSize, "the active header carries the new limit")
+	if scen == 1 {
+		verifAssert(s.availNow() == availBefore+(newMax-oldMax), "after growing exactly the additional pages become allocatable")
+	}
+
+	// allocate and write pages, overwrite others: nothing of the earlier state may change
+	for round := 0; round < 2; round++ {
+		tx, berr := f2.Begin()
+		verifAssert(berr == nil, "Begin succeeds")
+		w := s.m.clone()
+		ps, aerr := tx.AllocN(8)
+		verifAssert(aerr == nil && len(ps) == 8, "AllocN(8) succeeds on the resized file")
+		for _, p := range ps {
+			if verifKnown("D22", scen == 1 && uint(p.ID()) >= oldMax && p.ID() < before.metaEnd) {
+				verifLog("a page of the overflow area (beyond the old maximum size, owned by the meta area) is handed out as a data page after the limit was raised")
+			}
+			s.checkOwnership(w, p.ID())
+			b0, b1 := s.content()
+			verifAssert(p.SetBytes(verifBuf(b0, b1, b1)) == nil, "SetBytes succeeds")
+			w.pages = append(w.pages, refPage{id: p.ID(), b0: b0, b1: b1, last: b1})
+		}
+		if round == 1 {
+			rp := &w.pages[1]
+			p, _ := tx.Page(rp.id)
+			b0, b1 := s.content()
+			verifAssert(p.SetBytes(verifBuf(b0, b1, b1)) == nil, "overwriting a live page succeeds")
+			rp.b0, rp.b1, rp.last, rp.raw = b0, b1, b1, false
+		}
+		verifAssert(tx.Commit() == nil, "Commit succeeds on the resized file")
+		s.m = w.clone()
+		s.checkCommitted("after a transaction on the resized file")
+		s.assertPartition("after a transaction on the resized file")
+	}
+
+	verifAssert(f2.Close() == nil, "File.Close succeeds")
+	disk3 := memFileFrom(disk2.image(), capacity)
+	f3, err3 := openWith(disk3, Options{PageSize: verifPageSize})
+	verifAssert(err3 == nil, "plain reopen succeeds")
+	verifAssert(f3.allocator.maxPages == newMax && f3.allocator.maxSize == newMax*verifPageSize, "a later plain open reports the new limit")
+	s.disk, s.f = disk3, f3
+	s.checkCommitted("after the plain reopen")
+	verifReach("end")
+}
